@@ -35,5 +35,5 @@ def cases(ctx):
     return eg.engine_cases(max_jobs=ctx.pick(5, 7), up_pct=70, fail_pct=35, launch_error_pct=8, tokens=1, foreign=False, wait_pct=80, stage2_pct=20, adopt_pct=10)
 
 
-PARTS = [Part("engine", prop, strategy=cases, quick=6400, thorough=160000, shrink_budget=40)]
+PARTS = [Part("engine", prop, strategy=cases, quick=6400, thorough=64000, shrink_budget=40)]
 TIMEOUT = {"quick": 900, "thorough": 5400}
